@@ -476,7 +476,7 @@ func runC07(c *mon.Ctx) {
 	allKinds := c06allKinds
 
 	// (W1) valid tables, mutated bytes, re-read
-	c.Stratum("mutated", c.N(16000, 600000), func(k *mon.Case) {
+	c.Stratum("mutated", c.N(16000, 400000), func(k *mon.Case) {
 		r := k.Rng
 		sizes := []int{5, 8, 20, 60}
 		alpha := otlmini.Random(r, sizes[r.IntN(len(sizes))], []int{300, 65535}[r.IntN(2)])
@@ -534,7 +534,7 @@ func runC07(c *mon.Ctx) {
 	})
 
 	// (W2/W3) hostile shapes: structure -> bytes -> reader -> Apply, and the structure itself
-	c.Stratum("hostile", c.N(6400, 240000), func(k *mon.Case) {
+	c.Stratum("hostile", c.N(6400, 160000), func(k *mon.Case) {
 		r := k.Rng
 		sh := c07buildShape(r, k.Index+k.Index/16)
 		desc := c07describeShape(sh)
@@ -583,7 +583,7 @@ func runC07(c *mon.Ctx) {
 	})
 
 	// histories on one context
-	c.Stratum("history", c.N(3200, 125000), func(k *mon.Case) {
+	c.Stratum("history", c.N(3200, 85000), func(k *mon.Case) {
 		r := k.Rng
 		var t *c07tables
 		var lookups []gtab.LookupIndex
